@@ -221,3 +221,28 @@ def run(chk: Check, eng: Engine) -> None:
         else:
             chk.bad("R04-d", eng.relfile(eng.method(ip, "__init__")), ip.node.lineno, ip.fq, f"IterativeParser has no `{vis}` of its own for node kind {kind}",
                     "the generic NodeVisitor default compiles that node like its children: the parser accepts another language than the grammar", keyparts=f"visitor-missing|{vis}")
+
+
+# ------------------------------------------------------------------ self-test variants
+from ..mutants import M  # noqa: E402
+
+_API = "src/fandango/api.py"
+_P = "src/fandango/language/grammar/parser/parser.py"
+_IP = "src/fandango/language/grammar/parser/iterative_parser.py"
+_R = "src/fandango/language/grammar/nodes/repetition.py"
+_CMP = "src/fandango/constraints/comparison.py"
+MUTANTS = [
+    M("api-filter-first-constraint", _API, "            if all(constraint.check(tree) for constraint in self.constraints):", "            if all(constraint.check(tree) for constraint in self.constraints[:1]):", "R04-a"),
+    M("api-yield-last-tree-too", _API, "            else:\n                last_tree = tree\n\n        return last_tree", "            else:\n                last_tree = tree\n        if last_tree is not None and prefix:\n            yield last_tree\n\n        return last_tree", "R04-a"),
+    M("miss-path-yields-uncollapsed", _P, "                collapsed = self.collapse(tree)\n                if collapsed is not None:\n                    yield collapsed\n        # Publish", "                collapsed = self.collapse(tree)\n                if collapsed is not None:\n                    yield collapsed\n                else:\n                    yield tree\n        # Publish", "R04-b"),
+    M("controlflow-default-true", _P, "        hookin_parent: Optional[DerivationTree] = None,\n        include_controlflow: bool = False,\n    ) -> Optional[DerivationTree]:", "        hookin_parent: Optional[DerivationTree] = None,\n        include_controlflow: bool = True,\n    ) -> Optional[DerivationTree]:", "R04-b"),
+    M("helper-prefix-changed", _R, "        return NonTerminal(f\"<__{self.id}>\")\n\n    @property\n    def internal_max", "        return NonTerminal(f\"<_rep_{self.id}>\")\n\n    @property\n    def internal_max", "R04-b"),
+    M("collapse-prefix-narrowed", _IP, "        if isinstance(tree.symbol, NonTerminal):\n            if str(tree.symbol.value()).startswith(\"<__\"):\n                return reduced", "        if isinstance(tree.symbol, NonTerminal):\n            if str(tree.symbol.value()).startswith(\"<__alternative\"):\n                return reduced", "R04-b"),
+    M("comparison-raise-accepts", _CMP, "                print_exception(e, f\"Evaluation failed: {self._left}\")\n                # a combination whose evaluation raises is a failed combination\n                fitness_values.append(0.0)\n", "                print_exception(e, f\"Evaluation failed: {self._left}\")\n", "R04-c"),
+    M("api-swallows-check-errors", _API, "            if all(constraint.check(tree) for constraint in self.constraints):\n                yield tree\n            else:\n                last_tree = tree",
+      "            try:\n                ok = all(constraint.check(tree) for constraint in self.constraints)\n            except Exception:\n                ok = True\n            if ok:\n                yield tree\n            else:\n                last_tree = tree", "R04-c"),
+    M("parser-loses-star-handler", _IP, "    def visitStar(self, node: Star) -> IterativeParserVisitorReturnType:", "    def visit_star(self, node: Star) -> IterativeParserVisitorReturnType:", "R04-d"),
+]
+TWINS = [
+    M("twin-api-genexp-to-list", _API, "            if all(constraint.check(tree) for constraint in self.constraints):", "            if all([constraint.check(tree) for constraint in self.constraints]):", None),
+]
